@@ -3,14 +3,14 @@
  *
  * PADDING LEMMA.  Let B0 = hash->bytes < 2^61 and B1 = the byte counter after the call.  Then
  *   (a) B1 is the smallest multiple of 64 that is >= B0 + 9   (pad length 1 + ((119 - B0%64) % 64), then 8);
- *   (b) exactly the stream blocks B0/64 .. B1/64 - 1 (one or two) are compressed, each once, on hash->s;
+ *   (b) exactly the stream blocks B0/64 .. B1/64 - 1 (one or two) are compressed, each once, state chained by value;
  *       the byte delivered at stream position p = 64 k + o is
  *           old buf[o]                          for p <  B0        (the buffered tail of the message)
  *           0x80                                for p == B0
  *           0x00                                for B0 < p < B1 - 8
  *           byte (p - (B1-8)) of be64(8 * B0)   for B1 - 8 <= p < B1   (length in BITS, big endian);
- *   (c) out32 = be32(s[0]) || ... || be32(s[7]) of the state left by the LAST compression call;
- *   (d) hash->s is zeroed afterwards.
+ *   (c) out32 = be32(s[0]) || ... || be32(s[7]) of the state left by the LAST compression call.
+ *   (What finalize leaves in the object afterwards is not specified by hash.h and not asserted.)
  * Together with the stream lemma (hash_write.c) and the transform loop (hash_transform.c): the digest is
  * f*(IV or midstate, stream || pad(|stream|)) in the sense of FIPS 180-4 section 5.1.1 / 6.2, for every
  * message length and every split, with f the compression oracle. */
@@ -24,22 +24,23 @@
 
 void h_finalize(void) {
     INPUT(uint64_t, b0); INPUT_ARR(unsigned char, buf0, 64); INPUT_ARR(uint32_t, s0, 8);
-    INPUT(uint64_t, wblk); INPUT(unsigned, woff); INPUT(unsigned, sk); INPUT(unsigned, ob);
+    INPUT(uint64_t, wblk); INPUT(unsigned, woff); INPUT(unsigned, ob);
     secp256k1_sha256 h; secp256k1_hash_ctx hc; unsigned char out[32];
     uint64_t b1, p, bits; unsigned char exp;
     __CPROVER_assume(b0 < ((uint64_t)1 << 61));          /* SHA-256 message limit 2^64 - 1 bits: the function's precondition (VERIFY_CHECK) */
-    __CPROVER_assume(woff < 64 && sk < 8 && ob < 32 && wblk <= (UINT64_MAX >> 6));
+    __CPROVER_assume(woff < 64 && ob < 32 && wblk <= (UINT64_MAX >> 6));
     memcpy(h.s, s0, 32); memcpy(h.buf, buf0, 64); h.bytes = b0;
     hc.fn_sha256_compression = verif_compress;
     COMPLOG_RESET(); g_c_blocks = b0 / 64; g_cw_blk = wblk; g_cw_off = woff;
-    g_mc_big = NULL; g_mc_base = (unsigned char *)&h; g_mc_doff = offsetof(secp256k1_sha256, buf) + woff; g_mc_calls = 0;
+    g_sk = ob / 4; g_c_cur = h.s[ob / 4];     /* the state word digest byte ob comes from */
+    g_mc_big = NULL; g_mc_base = (unsigned char *)&h; g_mc_doff = offsetof(secp256k1_sha256, buf) + woff;
 
     secp256k1_sha256_finalize(&hc, &h, out);
 
     b1 = h.bytes; bits = b0 << 3;
     __CPROVER_assert(b1 % 64 == 0 && b1 >= b0 + 9 && b1 - (b0 + 9) < 64, "C05 sha256_finalize (a): padded length is the smallest multiple of 64 >= bytes + 9");
-    __CPROVER_assert(g_c_blocks == b1 / 64 && g_c_bad == 0 && g_c_calls >= 1 && g_c_calls <= 2, "C05 sha256_finalize (b): exactly the blocks bytes/64 .. padded/64 - 1 are compressed");
-    __CPROVER_assert(g_c_state[0] == h.s && (g_c_calls < 2 || g_c_state[1] == h.s), "C05 sha256_finalize (b): every compression call works on hash->s");
+    __CPROVER_assert(g_c_blocks == b1 / 64 && g_c_bad == 0, "C05 sha256_finalize (b): exactly the blocks bytes/64 .. padded/64 - 1 are compressed, no empty call");
+    __CPROVER_assert(g_c_chain_bad == 0, "C05 sha256_finalize (b): the object's state enters the first compression and is chained through the calls");
     if (b0 / 64 <= wblk && wblk < b1 / 64) {
         p = wblk * 64 + woff;
         __CPROVER_assert(g_cw_hit == 1, "C05 sha256_finalize (b): every padded block is delivered exactly once");
@@ -54,11 +55,10 @@ void h_finalize(void) {
     } else {
         __CPROVER_assert(g_cw_hit == 0, "C05 sha256_finalize (b): no other block is delivered");
     }
-    __CPROVER_assert(out[ob] == (unsigned char)(g_c_out[ob / 4] >> (8 * (3 - ob % 4))), "C05 sha256_finalize (c): digest is be32 of the state words left by the last compression");
-    __CPROVER_assert(h.s[sk] == 0, "C05 sha256_finalize (d): state zeroed");
+    __CPROVER_assert(out[ob] == (unsigned char)(g_c_cur >> (8 * (3 - ob % 4))), "C05 sha256_finalize (c): digest is be32 of the state words left by the last compression");
 
-    if (g_c_calls == 2 && b0 % 64 == 56) REACH("finalize: bytes%64 == 56 needs two blocks");
-    if (g_c_calls == 1 && b0 % 64 == 55) REACH("finalize: bytes%64 == 55 fits one block");
+    if (b1 / 64 - b0 / 64 == 2 && b0 % 64 == 56) REACH("finalize: bytes%64 == 56 needs two blocks");
+    if (b1 / 64 - b0 / 64 == 1 && b0 % 64 == 55) REACH("finalize: bytes%64 == 55 fits one block");
     if (b0 == 0) REACH("finalize: empty message");
     if (b0 > ((uint64_t)1 << 60) && wblk == b1 / 64 - 1 && woff == 56) REACH("finalize: huge message, top length byte watched");
     REACH("finalize end");
@@ -82,7 +82,7 @@ void h_sha_compose(void) {
     d = malloc(la + lb ? la + lb : 1); __CPROVER_assume(d != NULL);
     b0 = 64 * m; h.bytes = b0;
     hc.fn_sha256_compression = verif_compress;
-    COMPLOG_RESET(); g_c_blocks = m; g_cw_blk = wblk; g_cw_off = woff; g_sk = ob / 4;   /* the contract speaks about ONE state word: the one digest byte ob comes from */ g_mc_calls = 0; g_mc_base = NULL; g_mc_big = NULL;
+    COMPLOG_RESET(); g_c_blocks = m; g_cw_blk = wblk; g_cw_off = woff; g_sk = ob / 4; g_c_cur = h.s[ob / 4];   /* the contract speaks about ONE state word: the one digest byte ob comes from */ g_mc_base = NULL; g_mc_big = NULL;
 
     secp256k1_sha256_write(&hc, &h, d, la);
     secp256k1_sha256_write(&hc, &h, d + la, lb);
@@ -90,7 +90,7 @@ void h_sha_compose(void) {
 
     total = b0 + la + lb; b1 = h.bytes; bits = total << 3;
     __CPROVER_assert(b1 % 64 == 0 && b1 >= total + 9 && b1 - (total + 9) < 64, "C05 sha256 composition: padded length is the smallest multiple of 64 >= length + 9");
-    __CPROVER_assert(g_c_blocks == b1 / 64 && g_c_bad == 0, "C05 sha256 composition: exactly the blocks m .. padded/64 - 1 are compressed");
+    __CPROVER_assert(g_c_blocks == b1 / 64 && g_c_bad == 0 && g_c_chain_bad == 0, "C05 sha256 composition: exactly the blocks m .. padded/64 - 1 are compressed, state chained from the start state");
     if (m <= wblk && wblk < b1 / 64) {
         p = wblk * 64 + woff;
         __CPROVER_assert(g_cw_hit == 1, "C05 sha256 composition: every block of the padded message is compressed exactly once");
@@ -101,7 +101,7 @@ void h_sha_compose(void) {
     } else {
         __CPROVER_assert(g_cw_hit == 0, "C05 sha256 composition: no other block is compressed");
     }
-    __CPROVER_assert(g_c_calls >= 1 && out[ob] == (unsigned char)(g_c_out[ob / 4] >> (8 * (3 - ob % 4))), "C05 sha256 composition: digest is be32 of the last compression output");
+    __CPROVER_assert(g_c_calls >= 1 && out[ob] == (unsigned char)(g_c_cur >> (8 * (3 - ob % 4))), "C05 sha256 composition: digest is be32 of the last compression output");
     if (m == 0 && la == 3 && lb == 0 && wblk == 0 && woff == 63) REACH("compose: 'abc'-sized message, last length byte");
     if (la % 64 == 5 && lb > 1000 && wblk == m + 3 && g_cw_hit) REACH("compose: unaligned split, block 3");
     if ((la + lb) % 64 == 56 && la > 0 && lb > 0) REACH("compose: length 56 mod 64 (extra padding block)");
